@@ -792,6 +792,56 @@ def c02_r2(ctx):
     ctx.check(good, key(gs, "printed nodes"), f"a printed definition bypasses the @mixin removal: {[norm(v)[:200] for v in vals]}", gs.loc(), okmsg="operation and fragments printed after @mixin removal")
 
 
+
+def _join_to_concat(o, v):
+    """`SEP.join(parts)` where parts is a local list (display + append / extend) -> the concatenation it denotes, with one
+    generic element standing for what a loop / generator contributes"""
+    import copy as _copy
+    if not (isinstance(v, ast.Call) and isinstance(v.func, ast.Attribute) and v.func.attr == "join" and isinstance(v.func.value, ast.Constant) and isinstance(v.func.value.value, str)
+            and len(v.args) == 1 and not v.keywords):
+        return v
+    sep = v.func.value
+    src = v.args[0]
+    parts = []
+
+    def from_iterable(e):
+        e = strip_pre(e)
+        if isinstance(e, (ast.List, ast.Tuple)):
+            return list(e.elts)
+        if isinstance(e, (ast.GeneratorExp, ast.ListComp)) and len(e.generators) == 1 and not e.generators[0].ifs and isinstance(e.generators[0].target, ast.Name):
+            from ..absint import _Subst
+            elem = ast.Call(func=ast.Name(id="<elem>", ctx=ast.Load()), args=[e.generators[0].iter], keywords=[])
+            return [_Subst({e.generators[0].target.id: elem}, deep=True, force=True).visit(_copy.deepcopy(e.elt))]
+        return None
+    if isinstance(src, ast.Name):
+        base = from_iterable(o.deref(src))
+        if base is None:
+            return v
+        parts += base
+        for m in o.muts(src.id):
+            m = strip_pre(m)
+            if isinstance(m, ast.Call) and isinstance(m.func, ast.Attribute) and m.func.attr == "append" and len(m.args) == 1:
+                parts.append(m.args[0])
+            elif isinstance(m, ast.Call) and isinstance(m.func, ast.Attribute) and m.func.attr == "extend" and len(m.args) == 1:
+                more = from_iterable(m.args[0])
+                if more is None:
+                    return v
+                parts += more
+            else:
+                return v
+    else:
+        base = from_iterable(src)
+        if base is None:
+            return v
+        parts = base
+    if not parts:
+        return v
+    out = parts[0]
+    for p_ in parts[1:]:
+        out = ast.BinOp(left=out, op=ast.Add(), right=ast.BinOp(left=_copy.deepcopy(sep), op=ast.Add(), right=p_))
+    return ast.fix_missing_locations(out)
+
+
 def _opstr_values(repo, plugin: bool, fragments: bool) -> List[ast.expr]:
     """symbolic value(s) of the document returned by get_operation_as_str in one scenario, helpers inlined"""
     from ..absint import inline_helpers
@@ -806,12 +856,16 @@ def _opstr_values(repo, plugin: bool, fragments: bool) -> List[ast.expr]:
         return None
     outs = [o for o in Interp(gs, atom).run() if o.kind == "return"]
     if fragments:
-        outs = [o for o in outs if any("loop body once" in t for t in o.trace)]
+        outs = [o for o in outs if not any("loop skipped" in t for t in o.trace)]
     else:
         outs = [o for o in outs if not any("loop body once" in t for t in o.trace)]
     seen = {}
     for o in outs:
-        v = inline_helpers(strip_pre(o.value), repo, gs, atom)
+        class _J(ast.NodeTransformer):
+            def visit_Call(self, node, o=o):
+                self.generic_visit(node)
+                return _join_to_concat(o, node)
+        v = inline_helpers(_J().visit(strip_pre(o.value)), repo, gs, atom)
         seen.setdefault(norm(v), v)
     if not seen:
         raise AnalysisError("get_operation_as_str: no symbolic outcome")
